@@ -104,6 +104,7 @@ Plan Gen(uint64_t seed, Tier tier)
     p.knobs["faults"] = faults;
     // The two statement-to-the-letter clauses that the unchanged tree does not meet (see the final report / known findings);
     // they are evaluated last in a run so that they never mask another clause.
+    p.knobs["undo_heavy"] = 0;
     p.knobs["strict_size_field"] = 1;
     p.knobs["strict_witness_only"] = 1;
 
@@ -183,6 +184,8 @@ Plan Gen(uint64_t seed, Tier tier)
             }
         }
     }
+    // drawn last so that the rest of the plan does not depend on it
+    p.knobs["undo_heavy"] = rng.chance(1, 4) ? 1 : 0;
     return p;
 }
 
@@ -372,13 +375,23 @@ struct Store {
             std::vector<Cand> cands;
             for (auto& [op, c] : view)
                 if (kr.CanSpend(c.spk) && (!c.coinbase || height - c.height >= cs.ref->maturity)) cands.push_back({op, c});
-            int ntx = (int)r.range(0, max_tx);
+            // "undo heavy" runs alternate between stretches of blocks that CREATE outputs with 10,000-byte scripts (large blocks, tiny
+            // undo) and stretches that only SPEND them (tiny blocks, large undo), so that rev files outgrow their blk files
+            const bool undo_heavy = ctx.knob("undo_heavy", 0) != 0;
+            const bool spend_phase = undo_heavy && (height / 8) % 2 == 1;
+            int ntx = (int)r.range(undo_heavy ? 1 : 0, std::max(max_tx, undo_heavy ? 3 : 0));
             for (int t = 0; t < ntx && !cands.empty(); ++t) {
                 int nin = (int)std::min<size_t>(cands.size(), (size_t)r.range(1, 3));
                 std::vector<TxIn> ins;
                 CAmount tot = 0;
                 for (int k = 0; k < nin; ++k) {
                     size_t pick = r.below(cands.size());
+                    if (spend_phase) {
+                        std::vector<size_t> big;
+                        for (size_t q = 0; q < cands.size(); ++q)
+                            if (cands[q].coin.spk.size() >= 9999) big.push_back(q);
+                        if (!big.empty()) { pick = big[r.below(big.size())]; ctx.probe("spent_output_with_script_at_size_limit"); }
+                    }
                     Cand c = cands[pick];
                     cands.erase(cands.begin() + pick);
                     ins.push_back({c.op, c.coin, 0xffffffffu});
@@ -392,7 +405,8 @@ struct Store {
                 for (int o = 0; o < nout; ++o) {
                     CAmount v = o + 1 == nout ? left : (CAmount)r.below((uint64_t)left + 1);
                     left -= v;
-                    outs.emplace_back(v, kr.Spk((SK)r.below((int)SK::NKINDS), (int)r.below(N_KEYS)));
+                    if (undo_heavy && !spend_phase && r.chance(7, 10)) outs.emplace_back(v, kr.BigTrue(r.chance(1, 4) ? 9999 : 10000, (int)r.below(N_KEYS)));
+                    else outs.emplace_back(v, kr.Spk((SK)r.below((int)SK::NKINDS), (int)r.below(N_KEYS)));
                 }
                 bool ok = true;
                 CTransactionRef tx = BuildTx(ins, outs, 0, r.chance(1, 2) ? 1 : 2, SigDefect::NONE, 0, ok);
@@ -404,6 +418,7 @@ struct Store {
         }
         // padding: unspendable data outputs of the coinbase; the size class decides how the block sits in the 64 KiB files
         size_t pad = 0;
+        if (ctx.knob("undo_heavy", 0)) size_profile = 4;
         switch (size_profile == 0 ? r.pick({60, 25, 12, 3, 0, 0}) : size_profile == 1 ? r.pick({35, 25, 22, 12, 6, 0}) : size_profile == 2 ? r.pick({15, 15, 25, 25, 20, 0}) : size_profile == 3 ? r.pick({20, 20, 20, 20, 17, 3}) : r.pick({40, 45, 15, 0, 0, 0})) {
         case 0: pad = 0; break;
         case 1: pad = (size_t)r.range(60, 3000); break;
